@@ -30,6 +30,7 @@ type ProcCfg struct {
 	Early  map[string]int `json:"early"`  // component rank -> 0 none | 1 fresh proxy
 	After  map[string]int `json:"after"`  // component rank -> 0 none | 1 fresh | 2 early-if-any | 3 early-else-fresh
 	Faults [][2]int       `json:"faults"` // (phase 0 before|1 after|2 early, component rank)
+	Short  []int          `json:"short"`  // component ranks for which PostProcessBeforeInstantiation returns the component itself
 }
 
 type CompCfg struct {
@@ -44,6 +45,7 @@ type CompCfg struct {
 	Ord      int               `json:"ord"`
 	Rets     map[string]string `json:"rets"`
 	Proc     *ProcCfg          `json:"proc"`
+	InitGet  []string          `json:"initGet"` // names this component's Init asks the container for (GetComponentByName), in order
 }
 
 type ScnCfg struct {
@@ -78,6 +80,7 @@ type Scn struct {
 	NextP     int
 	EarlyMade map[[2]int]any
 	Instances []any
+	App       *app.App
 }
 
 // OKey identifies an original instance: all zero-size objects share one address, so the dynamic type is part of the key.
@@ -89,8 +92,9 @@ type OKey struct {
 func okey(v reflect.Value) OKey { return OKey{v.Pointer(), v.Type()} }
 
 type Base struct {
-	C *CompCfg
-	S *Scn
+	C   *CompCfg
+	S   *Scn
+	Got []any // what Init obtained from the container, in order
 }
 
 func (b *Base) log(k string, p int) {
@@ -101,6 +105,13 @@ func (b *Base) DoInit() error {
 	b.log("init", -1)
 	if b.C.InitFail {
 		return errors.New("init failed")
+	}
+	for _, name := range b.C.InitGet {
+		c, err := b.S.App.GetComponentByName(name)
+		if err != nil {
+			return err
+		}
+		b.Got = append(b.Got, c)
 	}
 	return nil
 }
@@ -214,6 +225,13 @@ func (p *ProcCore) PostProcessAfterInitialization(c any, name string) (any, erro
 }
 
 func (p *ProcCore) PostProcessBeforeInstantiation(m *component_definition.Meta, name string) (any, error) {
+	if r, ok := p.rank(name); ok && p.pb.C.Proc != nil {
+		for _, sr := range p.pb.C.Proc.Short {
+			if sr == r {
+				return m.Raw, nil // short-circuit: the container takes the instance as it is
+			}
+		}
+	}
 	return nil, nil
 }
 func (p *ProcCore) PostProcessAfterInstantiation(c any, name string) (bool, error) { return false, nil }
@@ -363,6 +381,17 @@ func (s *Scn) observeFields(objs map[int]any) []FieldObs {
 				}
 			}
 			res = append(res, fo)
+		}
+		// what the component's Init looked up: pseudo-fields 100, 101, ...
+		if bd, ok := objs[r].(Based); ok {
+			b := bd.WxBase()
+			for j := range b.C.InitGet {
+				fo := FieldObs{H: r, K: 100 + j, V: []Token{}}
+				if j < len(b.Got) {
+					fo.V = append(fo.V, s.token(reflect.ValueOf(b.Got[j])))
+				}
+				res = append(res, fo)
+			}
 		}
 	}
 	return res
@@ -575,6 +604,7 @@ func RunScenario(cfg *ScnCfg) (res Result) {
 		comps = append(comps, insts[i])
 	}
 	a := app.NewApp()
+	s.App = a
 	var tr *tracer
 	if cfg.Trace {
 		tr = &tracer{s: s}
